@@ -1372,7 +1372,8 @@ class XMLSchemaBase(XsdValidator, ElementPathMixin[Union[SchemaType, XsdElement]
                     return
 
             if elem is not resource.root and context.level:
-                # a depth-level element is decoded without its parent group: push its xmlns declarations
+                # a depth-level element is decoded without its parent group:
+                # push its xmlns declarations
                 context.converter.set_xmlns_context(elem, context.level)
 
             try:
